@@ -58,6 +58,74 @@ func unsupported_() []*Unsupported {
 	}
 }
 
+// Selection: a `types` selection over a corpus program; exactly the three functions of every selected
+// type must be emitted, and none for any other message (C12).
+type Selection struct {
+	Base  string
+	Types []string
+}
+
+func selections() []Selection {
+	return []Selection{
+		{"P-order", []string{"Leaf"}}, {"P-order", []string{"Top"}}, {"P-order", []string{"Top", "Leaf"}}, {"P-order", []string{"Top", "Mid", "Leaf"}},
+		{"P-order", []string{"Leaf", "Mid"}}, {"P-multi", []string{"A"}}, {"P-multi", []string{"B", "A"}}, {"P-multi", []string{"A", "Shared"}},
+		{"P-multi", []string{"Shared", "Mid"}}, {"P-nest", []string{"N1", "Inner", "Leaf"}}, {"P-oneof", []string{"O2", "O1"}}, {"P-oneof", []string{"O2"}},
+	}
+}
+
+func observeSelection(sel Selection, pluginBin, out string) *Observation {
+	name := "S-" + sel.Base + "-" + strings.Join(sel.Types, "+")
+	o := &Observation{Name: name, Mode: "selection"}
+	base := findProgram(sel.Base)
+	cfg := base.Cfg()
+	cfg.Types = sel.Types
+	dir := filepath.Join(out, name)
+	cfgPath := filepath.Join(dir, "cfg.yaml")
+	writeFile(cfgPath, cfg.yaml())
+	file := base.File().build()
+	req := buildRequest(file, "config="+cfgPath)
+	o.Request = filepath.Join(dir, "req.bin")
+	writeFile(o.Request, req)
+	logPath := filepath.Join(dir, "plugin.log")
+	resp, err := runPlugin(pluginBin, req, logPath)
+	if err != nil {
+		o.PluginError = err.Error()
+		o.Failures = append(o.Failures, "plugin failed: "+err.Error())
+		return o
+	}
+	src := ""
+	if len(resp.File) == 1 {
+		src = resp.File[0].GetContent()
+	}
+	funcs, perr := topLevelFuncs(src)
+	if perr != nil {
+		o.Failures = append(o.Failures, "generated file does not parse: "+perr.Error())
+		return o
+	}
+	o.Funcs = funcs
+	want := map[string]bool{}
+	for _, t := range sel.Types {
+		for _, fn := range []string{"GenSchema" + t, "Copy" + t + "FromTerraform", "Copy" + t + "ToTerraform"} {
+			want[fn] = true
+			n := 0
+			for _, f := range funcs {
+				if f == fn {
+					n++
+				}
+			}
+			if n != 1 {
+				o.Failures = append(o.Failures, fmt.Sprintf("%s is emitted %d times for the selection %v (want exactly once)", fn, n, sel.Types))
+			}
+		}
+	}
+	for _, f := range funcs {
+		if !want[f] && (strings.HasPrefix(f, "GenSchema") || (strings.HasPrefix(f, "Copy") && strings.HasSuffix(f, "Terraform"))) {
+			o.Failures = append(o.Failures, fmt.Sprintf("%s is emitted although its type is not selected (%v)", f, sel.Types))
+		}
+	}
+	return o
+}
+
 func topLevelFuncs(src string) ([]string, error) {
 	fs := token.NewFileSet()
 	f, err := parser.ParseFile(fs, "gen.go", src, 0)
